@@ -12,7 +12,6 @@ import (
 	"github.com/attestantio/go-eth2-client/spec/altair"
 	"github.com/attestantio/go-eth2-client/spec/phase0"
 	"github.com/attestantio/vouch/internal/vnd"
-	"github.com/attestantio/vouch/internal/vstub"
 )
 
 // node behaviours
@@ -102,10 +101,10 @@ var c08Real = []struct{ client, text string }{
 	{"Nimbus/v24.2", "400: UnknownHeadBlock"},
 }
 
-func c08Nodes(n int, tolerated []struct{ client, text string }, real []struct{ client, text string }) []*c08Node {
-	nodes := make([]*c08Node, n)
+func c08Nodes(n int, tolerated []struct{ client, text string }, real []struct{ client, text string }) []*c08KNode {
+	nodes := make([]*c08KNode, n)
 	for i := 0; i < n; i++ {
-		nd := &c08Node{name: []string{"node-a", "node-b", "node-c"}[i], client: "Lodestar/v1"}
+		nd := &c08KNode{c08Node: c08Node{name: []string{"node-a", "node-b", "node-c"}[i], client: "Lodestar/v1"}}
 		nd.behave = vnd.Choose("behaviour", nBehaviours)
 		if nd.behave != bHang {
 			nd.latency = time.Duration(vnd.I64("latency"))
@@ -135,10 +134,7 @@ func c08Attestations(n int, p int) {
 	vnd.Assume(timeout >= 2 && timeout <= 60000) // virtual nanoseconds
 	nodes := c08Nodes(n, c08Tolerated, c08Real)
 	conc := int64(vnd.IntRange("process-concurrency", n, 3))
-	s := &Service{clientMonitor: vstub.ClientMonitor{}, timeout: timeout, processConcurrency: conc, attestationsSubmitters: map[string]eth2client.AttestationsSubmitter{}}
-	for _, nd := range nodes {
-		s.attestationsSubmitters[nd.name] = nd
-	}
+	s := c08New(timeout, conc, nodes)
 	payload := make([]*phase0.Attestation, p)
 	for i := range payload {
 		payload[i] = &phase0.Attestation{Data: &phase0.AttestationData{Slot: 7, Index: phase0.CommitteeIndex(i), Source: &phase0.Checkpoint{}, Target: &phase0.Checkpoint{}}}
@@ -271,8 +267,8 @@ func VerifC08_SyncMessageErrors() {
 	c08Current = c08Bodies(cl.kind)
 	b := c08Current[vnd.Choose("body", len(c08Current))]
 	vnd.Assume(!b.nilEntry) // the crash on a null entry is C16's subject
-	nd := &c08Node{name: "node-a", client: cl.version, behave: bRejectOther, errText: b.text}
-	s := &Service{clientMonitor: vstub.ClientMonitor{}, timeout: time.Second, processConcurrency: 2, syncCommitteeMessagesSubmitter: map[string]eth2client.SyncCommitteeMessagesSubmitter{"node-a": nd}}
+	nd := &c08KNode{c08Node: c08Node{name: "node-a", client: cl.version, behave: bRejectOther, errText: b.text}}
+	s := c08New(time.Second, 2, []*c08KNode{nd})
 	err := s.SubmitSyncCommitteeMessages(context.Background(), []*altair.SyncCommitteeMessage{{Slot: 1}})
 	vnd.Quiesce()
 	tolerated := (cl.kind == "lighthouse" || cl.kind == "teku") && !b.parseFail && b.failures > 0 && b.allowed == b.failures
@@ -292,8 +288,8 @@ func VerifC16_SyncMessageErrorBody() {
 	cl := clients[vnd.Choose("client", len(clients))]
 	c08Current = c08Bodies(cl.kind)
 	b := c08Current[vnd.Choose("body", len(c08Current))]
-	nd := &c08Node{name: "node-a", client: cl.version, behave: bRejectOther, errText: b.text}
-	s := &Service{clientMonitor: vstub.ClientMonitor{}, timeout: time.Second, processConcurrency: 2, syncCommitteeMessagesSubmitter: map[string]eth2client.SyncCommitteeMessagesSubmitter{"node-a": nd}}
+	nd := &c08KNode{c08Node: c08Node{name: "node-a", client: cl.version, behave: bRejectOther, errText: b.text}}
+	s := c08New(time.Second, 2, []*c08KNode{nd})
 	_ = s.SubmitSyncCommitteeMessages(context.Background(), []*altair.SyncCommitteeMessage{{Slot: 1}})
 	vnd.Quiesce()
 	vnd.Cover("C16.syncmsg.survived")
